@@ -121,7 +121,10 @@ func capEnabled(c *Client, k imap.Cap) bool {
 }
 
 // completeCommand performs exactly the state transition of the completed
-// command: none on failure, none for commands that do not change the state.
+// command: none on failure, none for commands that do not change the state -
+// except that a failed SELECT/EXAMINE deselects (RFC 9051 6.3.2: "if a mailbox
+// is selected and a SELECT command that fails is attempted, no mailbox is
+// selected"; an IMAP4rev1 server sends no CLOSED code for it).
 // A successful SELECT installs a new summary made of exactly what this
 // command's responses carried (nothing inherited from the previous mailbox).
 // Every pending continuation request is either kept or cancelled - none is
@@ -130,7 +133,7 @@ func capEnabled(c *Client, k imap.Cap) bool {
 //@ func (c *Client) completeCommand(cmd command, err error)
 //@   props C12:post,pre@call,inv-init,inv-step C17:post,pre@call
 //@   ghost-inc completed when true
-//@   ensures err != nil || !changesState(cmd) ==> c.state == old(c.state) && c.mailbox == old(c.mailbox)
+//@   ensures (err != nil && !(isSelectCmd(cmd) && old(c.state) == imap.ConnStateSelected)) || !changesState(cmd) ==> c.state == old(c.state) && c.mailbox == old(c.mailbox)
 //@   ensures err == nil && isAuthCmd(cmd) ==> c.state == imap.ConnStateAuthenticated && c.mailbox == nil
 //@   ensures err == nil && isUnauthCmd(cmd) ==> c.state == imap.ConnStateNotAuthenticated && c.mailbox == nil
 //@   props C18:post
@@ -138,6 +141,7 @@ func capEnabled(c *Client, k imap.Cap) bool {
 //@   ensures err == nil && isLogoutCmd(cmd) ==> c.state == imap.ConnStateLogout && c.mailbox == nil
 //@   ensures err == nil && isSelectCmd(cmd) ==> c.state == imap.ConnStateSelected && c.mailbox != nil && c.mailbox.Name == old(selName(cmd))
 //@   ensures err == nil && isSelectCmd(cmd) ==> __freshPtr(c.mailbox) && c.mailbox.NumMessages == old(selNum(cmd)) && __same(c.mailbox.Flags, old(selFlags(cmd))) && __same(c.mailbox.PermanentFlags, old(selPermFlags(cmd)))
+//@   ensures err != nil && isSelectCmd(cmd) && old(c.state) == imap.ConnStateSelected ==> c.state == imap.ConnStateAuthenticated && c.mailbox == nil
 //@   ensures len(c.contReqs) + (__ghost("cancelled") - old(__ghost("cancelled"))) == old(len(c.contReqs))
 //@   loop 0 vars (filtered []continuationRequest, i int)
 //@   loop 0 invariant -1 <= i && len(filtered) + (__ghost("cancelled") - old(__ghost("cancelled"))) == i+1
